@@ -36,7 +36,7 @@ def para(rx):
     return re.sub(r"\s+", " ", m.group(0)).strip(" *") if m else ""
 
 
-dst = os.path.join(V, "seeded", pid)
+dst = os.path.join(V, "seeded", pid + os.environ.get("SEED_TAG", ""))
 shutil.rmtree(dst, ignore_errors=True)
 os.makedirs(dst)
 shutil.copy(os.path.join(sd, "patch.diff"), dst)
